@@ -55,6 +55,15 @@ def mergeSettled (mine other : Option Bool) : Option Bool :=
   | some v, none => some v
   | none, o => o
 
+/-- source fact: `IncompleteTransfer::append` keeps a frame's payload by pushing it to the end of the list of
+    payloads kept so far and touches that list in no other way (no folding, no reordering), which is what
+    `buf ++ [payload]` says in the model -/
+def appendOnlyPushes : Bool :=
+  open Amqp.Gen.ReasmK.append_order in
+  decide (idx_self___buffer___push___other__ < 1000) && decide (idx_drain = 1000) && decide (idx_insert = 1000) &&
+  decide (idx_concat = 1000) && decide (idx_extend = 1000) && decide (idx_truncate = 1000) && decide (idx_swap = 1000) &&
+  decide (idx_remove = 1000)
+
 /-- source fact: a continuation frame's fields are checked against the delivery in progress (`or_assign`,
     whose `?` leaves on a contradiction) before its payload is appended -/
 def checkedBeforeKept : Bool :=
